@@ -544,6 +544,7 @@ pub fn gen_file_opts(dna: &mut Dna, small: bool) -> FileCase {
     let mut labels: Vec<String> = vec![];
     let mut embedded = vec![];
     let mut desc = String::new();
+    let mut no_mutation = false;
     let nseg = match dna.weighted(if small { &[5, 70, 25, 0] } else { &[10, 40, 30, 20] }) {
         0 => 0,
         1 => dna.range(1, 2),
@@ -551,7 +552,30 @@ pub fn gen_file_opts(dna: &mut Dna, small: bool) -> FileCase {
         _ => dna.range(6, 12),
     };
     for _ in 0..nseg {
-        match dna.weighted(&[20, 25, 51, 4]) {
+        match dna.weighted(&[2000, 2500, 5040, 400, 6]) {
+            4 => {
+                // PNG whose IDAT run has more than 65535 chunks (one payload byte per chunk)
+                let n = dna.range(66_000, 72_000);
+                let mut m = Mix::new(dna.u64());
+                let plain: Vec<u8> = (0..n).map(|_| m.u8()).collect();
+                let stream = crate::gen_comp::zlib_deflate_raw(&plain, &crate::gen_comp::ZCfg::simple(0)).unwrap();
+                let o = PngOpts {
+                    signature: true,
+                    ihdr: true,
+                    cuts: vec![1; stream.len() + 5],
+                    gap: vec![],
+                    ending: 0,
+                    trailing: vec![],
+                    hdr: [0x78, 0x01],
+                };
+                let w = out.len();
+                let (st, l) = wrap_png(&mut out, &o, &stream, &plain);
+                no_mutation = true; // a damaged run of this size is re-parsed from every chunk (quadratic)
+                labels.push("png:more-than-65535-chunks".into());
+                labels.push("wrapper:png".into());
+                desc.push_str(&format!("[png with {} one-byte IDAT chunks]", stream.len() + 6));
+                embedded.push(Embedded { wrapper: "png", variant: "many-chunks".into(), wrapper_start: w, stream_start: st, stream_len: l, plain, stream });
+            }
             3 => {
                 let (a, b) = seam_idat(&mut out, dna);
                 labels.push("seam:idat-length-overlaps-previous-stream".into());
@@ -640,7 +664,7 @@ pub fn gen_file_opts(dna: &mut Dna, small: bool) -> FileCase {
     }
     // file-level mutation
     let mut mutated = false;
-    if dna.chance(30) && !out.is_empty() {
+    if dna.chance(30) && !out.is_empty() && !no_mutation {
         mutated = true;
         let n = dna.range(1, 3);
         for _ in 0..n {
